@@ -66,6 +66,9 @@ type Conn struct {
 	MoveRemovesSource bool // value returned by MoveMessages
 	Dedupe            bool // identical literals get the same message ID
 	SizeLimit         int  // literals larger than this are refused with ErrMessageSizeExceedsLimits (0 = none)
+	// DedupeTo, when set, makes the next successful CreateMessage answer with this existing
+	// message (the remote recognised a duplicate); one-shot.
+	DedupeTo imap.MessageID
 
 	Flags, PermFlags, Attrs imap.FlagSet
 
@@ -294,6 +297,15 @@ func (c *Conn) CreateMessage(ctx context.Context, _ connector.IMAPStateWrite, mb
 		call.Err = connector.ErrMessageSizeExceedsLimits
 		c.Calls = append(c.Calls, call)
 		return imap.Message{}, nil, call.Err
+	}
+	if id := c.DedupeTo; id != "" {
+		c.DedupeTo = ""
+		if m, ok := c.Msgs[id]; ok {
+			call.NewID = string(id)
+			call.Bool = true
+			c.Calls = append(c.Calls, call)
+			return imap.Message{ID: id, Flags: m.Flags, Date: m.Date}, append([]byte(nil), literal...), nil
+		}
 	}
 	if c.Dedupe {
 		if id, ok := c.byContent[string(literal)]; ok {
